@@ -284,7 +284,7 @@ def pred_history(real_out, calls_json, truth_json):
 
 def cases(ctx):
     rng = ctx.rng
-    for _ in range(ctx.n(1200, 30000)):
+    for _ in range(ctx.n(1200, 8000)):
         rx, calls, truth = gen_history(rng, ctx.thorough)
         cj = json.dumps([[tn, [[t, m] for t, m in a], [[t, m] for t, m in c]] for tn, a, c in calls])
         tj = json.dumps({json.dumps(list(k)): v for k, v in truth.items()})
